@@ -38,7 +38,7 @@ for chunks in req.get("chunks", []):
 out["chunks"] = res
 
 res = []
-for cap, appends, width, reads in req.get("raa", []):
+for cap, appends, width, reads, scr in req.get("raa", []):
     try:
         a = RowAppendableArray(cap)
         obs = []
@@ -56,6 +56,8 @@ for cap, appends, width, reads in req.get("raa", []):
                 arr = np.repeat(arr[:, None], width, axis=1) + np.arange(width)[None, :] * 1000
                 arr = arr.reshape(len(rows), width)
             a.append_row(arr)
+            if scr:
+                arr[...] = -7      # the caller reuses its scratch array
             if (k + 1) in reads:
                 read(k + 1)
         read(len(appends))
